@@ -53,7 +53,9 @@ mod parsing {
     }
 
     pub fn parse_mode(pattern: &str, for_dir: bool) -> Result<u32, Box<dyn Error>> {
-        let mode = if pattern.contains(|c: char| c.is_ascii_digit()) {
+        // A numeric mode consists of octal digits only; anything else (including chmod-style
+        // "+7" / "=7") has to parse as a symbolic mode or is rejected.
+        let mode = if !pattern.is_empty() && pattern.chars().all(|c| c.is_ascii_digit()) {
             parse_numeric(0, pattern, for_dir)?
         } else {
             let mut mode = 0;
